@@ -11,6 +11,7 @@ ID = "C15"
 SUB = "c15"
 LEVEL = "proof"
 RESILIENT = True
+IMPL_CHUNK = 3000
 RULE = ("mutants of valid encodings of every modelled type: bit flips, truncation, 4-byte windows overwritten with "
         "boundary lengths, tag sweeps over the first 1-2 bytes, boundary timestamps, splices of two encodings, short "
         "random strings; non-trivial = mutant differs from every valid encoding generated in this run and is not a "
